@@ -855,8 +855,10 @@ fn case_wal(prop: &str, sc: &mut Scratch, mode: Mode, max: u64, ops: &[WOp], mut
         tags,
         ..Default::default()
     };
-    // oracle (C05 at WalManager level): everything a commit marker covers is recovered
-    if prop == "C05" {
+    // oracle (WalManager level): recover() returns exactly what the commit markers cover.  For C05 a
+    // difference after a rotation is finding C05-K4; for C06 only logs that were never rotated are judged
+    // (a single file: nothing is torn here, so everything committed must come back)
+    if prop == "C05" || (prop == "C06" && !rotated && !ops.iter().any(|o| matches!(o, WOp::Rotate))) {
         let want = committed(&run.logged);
         let got: Vec<String> = run.rec.as_ref().map(|v| v.iter().map(rec_term).collect()).unwrap_or_default();
         if run.rec.is_ok() && want == got {
@@ -864,8 +866,10 @@ fn case_wal(prop: &str, sc: &mut Scratch, mode: Mode, max: u64, ops: &[WOp], mut
         } else {
             c.oracle = Oracle::Fail;
             c.msg = format!("recover() returns {} of the {} records the commit markers cover", got.len(), want.len());
-            c.kid = Some("C05-K4".into());
-            c.kcoq = Some(format!("kc05_4_wal {} {} {}", tt, files_term(&run.files), meta_t));
+            if prop == "C05" {
+                c.kid = Some("C05-K4".into());
+                c.kcoq = Some(format!("kc05_4_wal {} {} {}", tt, files_term(&run.files), meta_t));
+            }
         }
     }
     c
@@ -2312,9 +2316,10 @@ fn main() {
                 let mut r = rng.fork();
                 let mut tags = vec![];
                 let mode = Mode::random(&mut r);
-                let max = *r.pick(&[64u64, 100, 160, 300, 9000, ENGINE_MAX]);
-                let mut ops = gen_wops(&mut r, &mut tags, true);
+                let mut max = *r.pick(&[64u64, 100, 160, 300, 9000, ENGINE_MAX]);
+                let mut ops = gen_wops(&mut r, &mut tags, i != 0);
                 if i == 0 {
+                    max = ENGINE_MAX;
                     // one record longer than 64 KiB: the length prefix is a full u32
                     ops.insert(0, WOp::Log(WalRecord::SetNodeProperty { id: NodeId::new(2), key: "big".into(), value: Value::String("z".repeat(66_000).as_str().into()) }));
                     ops.insert(1, WOp::Log(WalRecord::TxCommit { tx_id: TxId::new(2) }));
